@@ -34,6 +34,8 @@ type Loc struct {
 	Typ  types.Type
 	Prov string // access path for lock classification, e.g. multiplex.streamBufferedPipe.rwCond.L
 	Root string // object term at the root of Prov
+	Off  string // LElem of a slice: slice offset and relative index (Idx = Off + Rel)
+	Rel  string
 }
 
 type Val struct {
@@ -126,6 +128,7 @@ type Exec struct {
 	siteCount map[string]int
 	pendingBoxes []boxedArg
 	cellFns  map[string]Val
+	heapElemType map[string]types.Type
 }
 
 func newExec(w *World, unit string) *Exec {
@@ -167,7 +170,31 @@ func (e *Exec) hget(st *State, name string) string {
 	if !ok {
 		panic("heap map without sort: " + name)
 	}
-	return e.sc.declGlobalConst(name+"@"+st.base, srt)
+	n := name + "@" + st.base
+	if !e.sc.declared[n] {
+		e.sc.declGlobalConst(n, srt)
+		e.typeAxiom(name, n, true)
+	}
+	return n
+}
+
+// typeAxiom: every value stored in a typed heap map is a valid value of its Go type
+// (well-typed heap). Emitted for each fresh version of a field map.
+func (e *Exec) typeAxiom(name, term string, global bool) {
+	t, ok := e.heapElemType[name]
+	if !ok {
+		return
+	}
+	f := e.sc.rangeFact("(select "+term+" r)", t)
+	if f == "true" {
+		return
+	}
+	ax := fmt.Sprintf("(forall ((r Int)) (! %s :pattern ((select %s r))))", f, term)
+	if global {
+		e.sc.axiom("type:"+term, ax)
+	} else {
+		e.sc.assume("true", ax)
+	}
 }
 
 func (e *Exec) hset(st *State, name, term string) {
@@ -182,6 +209,7 @@ func (e *Exec) hhavoc(st *State, name string) string {
 	srt := e.heapSort[name]
 	n := e.sc.freshConst(name, srt)
 	st.heap[name] = n
+	e.typeAxiom(name, n, false)
 	return n
 }
 
@@ -221,6 +249,10 @@ func (e *Exec) fieldKindOf(ft types.Type) fieldKind {
 func (e *Exec) fieldMap(st types.Type, i int) string {
 	u := st.Underlying().(*types.Struct)
 	name := "F_" + structName(st) + "." + sanitize(u.Field(i).Name())
+	if e.heapElemType == nil {
+		e.heapElemType = map[string]types.Type{}
+	}
+	e.heapElemType[name] = u.Field(i).Type()
 	return e.heapMap(name, "(Array Int "+e.sc.sortOf(u.Field(i).Type())+")")
 }
 
@@ -358,6 +390,9 @@ func (e *Exec) load(st *State, l *Loc) string {
 	case LField:
 		return sel(e.hget(st, l.Map), l.Base)
 	case LElem:
+		if l.Off != "" {
+			return e.at(l.Typ, sel(e.hget(st, e.elemHeap(l.Typ)), l.Base), l.Off, l.Rel)
+		}
 		return sel(sel(e.hget(st, e.elemHeap(l.Typ)), l.Base), l.Idx)
 	case LBox:
 		if e.isModelStruct(l.Typ) {
@@ -1128,4 +1163,16 @@ func (e *Exec) globalName(g *ssa.Global) string {
 		pk = g.Pkg.Pkg.Name()
 	}
 	return e.heapMap("GV_"+sanitize(pk+"."+g.Name()), e.sc.sortOf(t))
+}
+
+// at(A, off, i) = A[off+i]: element access of a slice through a named function, so that quantifier
+// patterns mention the relative index i itself and no arithmetic.
+func (e *Exec) at(elem types.Type, arr, off, i string) string {
+	srt := e.sc.sortOf(elem)
+	name := "at_" + sortTag(srt)
+	if !e.sc.declared[name] {
+		e.sc.declFun(name, []string{"(Array Int " + srt + ")", "Int", "Int"}, srt)
+		e.sc.axiom(name, fmt.Sprintf("(forall ((a (Array Int %s)) (o Int) (i Int)) (! (= (%s a o i) (select a (+ o i))) :pattern ((%s a o i))))", srt, name, name))
+	}
+	return app(name, arr, off, i)
 }
